@@ -104,7 +104,51 @@ def validate_model(model: "Model") -> list[str]:
                 f"Must be one of: {valid_aggs_str}"
             )
 
+    # Derived and ratio metrics must not depend on themselves through metrics of the same model
+    cycle = _find_model_metric_cycle(model)
+    if cycle:
+        errors.append(f"Model '{model.name}': metric '{cycle[0]}' has circular dependency: {' -> '.join(cycle)}")
+
     return errors
+
+
+def _find_model_metric_cycle(model: "Model") -> list[str] | None:
+    """Find a dependency cycle among the derived and ratio metrics of one model.
+
+    Args:
+        model: Model whose metrics are checked
+
+    Returns:
+        List of metric names in circular path, or None if no cycle
+    """
+    by_name = {metric.name: metric for metric in model.metrics}
+    prefix = f"{model.name}."
+
+    def dependencies(metric: "Metric") -> list[str]:
+        if metric.type not in ("derived", "ratio"):
+            return []
+        names = {dep[len(prefix) :] if dep.startswith(prefix) else dep for dep in metric.get_dependencies()}
+        return sorted(name for name in names if name in by_name and by_name[name].type in ("derived", "ratio"))
+
+    done: set[str] = set()
+
+    def visit(name: str, path: list[str]) -> list[str] | None:
+        if name in path:
+            return path[path.index(name) :] + [name]
+        if name in done:
+            return None
+        for dep in dependencies(by_name[name]):
+            cycle = visit(dep, path + [name])
+            if cycle:
+                return cycle
+        done.add(name)
+        return None
+
+    for name in sorted(by_name):
+        cycle = visit(name, [])
+        if cycle:
+            return cycle
+    return None
 
 
 def validate_metric(measure: "Metric", graph: "SemanticGraph") -> list[str]:
@@ -224,6 +268,10 @@ def _check_circular_dependencies(
 
     dependencies = measure.get_dependencies(graph)
     for dep_name in sorted(dependencies):
+        # A metric on the current path closes a cycle even when it is not registered yet
+        # (the metric being validated is looked up in the graph only after it was accepted)
+        if dep_name in path:
+            return path[path.index(dep_name) :] + [dep_name]
         try:
             dep_measure = graph.get_metric(dep_name)
             if dep_measure:
